@@ -16,7 +16,7 @@ from ..ref import interp as ri
 
 PID = "C05"
 RULE = ("cases = (fan-out machine, item array, MaxConcurrency, per-item worker delays, schedule). Machines: Map over k items (k = 0..4 quick / 0..8 thorough) with MaxConcurrency 0..k+1 and one or "
-        "two Task states per iteration, Parallel with 2..3 (..5) branches of one or two Tasks, and the nestings Map-of-Parallel / Parallel-containing-Map / Map-of-Map / Map whose iterations enter the same nested Parallel twice (a Choice loops back once); followed by an 'After' Task. "
+        "two Task states per iteration, Parallel with 2..3 (..5) branches of one or two Tasks, and the nestings Map-of-Parallel / Parallel-containing-Map / Map-of-Map / Map whose iterations enter the same nested Parallel twice (a Choice loops back once); in one random case in four every worker answers twice; followed by an 'After' Task. "
         "Schedules: every interleaving (stateless DFS, bounded number of schedules per case) for small cases, Hypothesis choice lists otherwise. Oracles: output position i = reference output of "
         "branch/item i for every schedule; the After request is issued only after the last branch reply was handed to the engine; every item index is requested exactly once; requests issued minus "
         "replies delivered for a Map never exceeds MaxConcurrency > 0. Non-trivial = fan-out of at least 2 and the schedule (or the delays) deviates from index order. Distinct by canonical JSON of (case, schedule).")
@@ -120,7 +120,7 @@ def run_once(case, schedule, eager_time=False):
     try:
         w.eager_time = eager_time
         w.add_engine("A")
-        H.install_workers(w, definition, oracle)
+        H.install_workers(w, definition, oracle, dup_replies=case.get("dup", 0))
         w.create_state_machine("m1", definition, type_=case.get("type", "STANDARD"))
         st, r = w.start_execution(W.sm_arn("m1"), input_value, name="e1")
         arn = r["executionArn"]
@@ -131,7 +131,10 @@ def run_once(case, schedule, eager_time=False):
         log = w.broker.oplog
         # request / reply bookkeeping from the broker log
         req = [o for o in log if o["kind"] == "publish" and o.get("reply_to") and o["queues"] and o["queues"][0] in ("item", "item2", "recover", "after")]
-        rep_deliv = {o["correlation_id"]: o for o in log if o["kind"] == "deliver" and str(o["queue"]).startswith("asl_workflow_reply_to")}
+        rep_deliv = {}
+        for o in log:
+            if o["kind"] == "deliver" and str(o["queue"]).startswith("asl_workflow_reply_to"):
+                rep_deliv.setdefault(o["correlation_id"], o)      # the first delivery counts: a worker may answer twice (case["dup"])
         item_reqs = [o for o in req if o["queues"][0] == "item"]
         payloads = [json.loads(o["body"]) for o in item_reqs]
         # (1) each item / branch requested exactly once
@@ -163,7 +166,7 @@ def run_once(case, schedule, eager_time=False):
                     if idx is not None:
                         corr_idx[o["correlation_id"]] = idx
                         started.add(idx)
-                elif o["kind"] == "deliver" and str(o["queue"]).startswith("asl_workflow_reply_to") and o.get("correlation_id") in corr_idx:
+                elif o["kind"] == "deliver" and str(o["queue"]).startswith("asl_workflow_reply_to") and o.get("correlation_id") in corr_idx and rep_deliv.get(o["correlation_id"]) is o:
                     idx = corr_idx[o["correlation_id"]]
                     done[idx] = done.get(idx, 0) + 1
                 else:
@@ -244,6 +247,7 @@ def small_cases(tier):
     out.append({"kind": "parallel-with-map", "n": 1, "mc": 0})
     out.append({"kind": "map", "n": 3, "mc": 2, "two": False, "caught": [0], "recover_delay": 2})
     out.append({"kind": "map-of-looped-parallel", "n": 1, "mc": 0})
+    out.append({"kind": "map", "n": 3, "mc": 1, "two": False, "dup": 1})
     if tier == "thorough":
         out += [{"kind": "parallel", "n": 3, "two": False}, {"kind": "map", "n": 3, "mc": 2, "two": False}, {"kind": "map", "n": 3, "mc": 0, "two": False},
                 {"kind": "map-of-parallel", "n": 2, "mc": 1}, {"kind": "map-of-map", "n": 2, "mc": 1, "inner_mc": 1}, {"kind": "parallel-with-map", "n": 2, "mc": 1}]
@@ -291,6 +295,8 @@ def random_shard(k, seed, tier, examples=60):
         if kind in ("map", "parallel", "parallel-with-map") and n >= 1 and draw(st.integers(0, 2)) == 0:
             c["caught"] = sorted(draw(st.sets(st.integers(0, n - 1), min_size=1, max_size=2)))
             c["recover_delay"] = draw(st.sampled_from([1, 2, 4]))
+        if draw(st.integers(0, 3)) == 0:
+            c["dup"] = draw(st.sampled_from([0.25, 1, 3]))      # every worker answers twice, the second answer that much later: a duplicate must not fill a slot, complete a block or launch anything again
         sched = draw(st.lists(st.integers(0, 5), max_size=60 if tier == "thorough" else 30))
         return c, sched
 
@@ -305,7 +311,7 @@ def random_shard(k, seed, tier, examples=60):
         except Exception as e:
             camp.harness_error("case crashed the harness: %r %s %s" % (e, traceback.format_exc()[-700:], json.dumps(c)))
             return
-        camp.case(c, nontrivial=case["n"] >= 2 and (any(sched) or any(case["delays"])), classes=["random", "kind-" + case["kind"], "n-%d" % min(case["n"], 5), "mc-%s" % case.get("mc")] + (["failure-caught-inside-iteration"] if case.get("caught") else []),
+        camp.case(c, nontrivial=case["n"] >= 2 and (any(sched) or any(case["delays"])), classes=["random", "kind-" + case["kind"], "n-%d" % min(case["n"], 5), "mc-%s" % case.get("mc")] + (["failure-caught-inside-iteration"] if case.get("caught") else []) + (["workers-answer-twice"] if case.get("dup") else []),
                   sample=dict(c, outcome=info["outcome"], steps=info["steps"]))
         for b, d in fails:
             camp.fail(b, c, d)
